@@ -1,7 +1,9 @@
 """C06 — failures are fs.errors exceptions for a real cause and change nothing.
 
 Theorems: lean/FsProofs/C06.lean (every error Ref.step returns is in Ref.adm; a failed
-step leaves the state unchanged; adm classes hold only under their documented condition).
+step leaves the state unchanged; adm classes hold only under their documented condition);
+lean/FsProofs/OsRefines.lean (errno_table_truthful: OSFS's errno -> fs.errors translation, through
+the table generated from fs/error_tools.py, only reports classes in adm).
 Correspondence/oracle: every failing call of failure-heavy histories on every backend must
 raise a class from fs.errors (or the documented ValueError/TypeError) that Ref.adm accepts for
 the pre-state, render with str()/repr(), and leave the tree unchanged.
@@ -13,6 +15,9 @@ import inspect
 import vlib
 import fsharness as H
 from props import _stateful as S
+from props import _osexact as X
+
+EXTRA_PROOF_MODULES = ("FsProofs.OsRefines",)   # errno_table_truthful, os_failure_truthful_and_harmless
 
 
 def judge(rep, s, m):
@@ -129,10 +134,14 @@ def run(rep, tier, seed, deep=False):
         ops = S.exhaustive_small_ops()
         for kind in (["mem", "os", "sub-mem"] if quick else ["mem", "os", "sub-mem", "sub-os", "mount-root", "multi", "wrap-mem", "zip-w"]):
             steps += S.exhaustive_steps(kind, trees, ops)
+        steps += X.directed_steps()
         rep.programs = len(set(s.hist_id for s in steps))
         for s, m in S.with_model(drv, steps):
             judge(rep, s, m)
         render_all_error_classes(rep)
+        # the errno -> fs.errors translation: OSFS against its transcription through the GENERATED table
+        # (exact class, tree unchanged), the POSIX model against the kernel, the table against the live one
+        X.run_os_exact(rep, steps, drv)
         fails = [s for s in steps if s.impl[0] == "err"]
         for s in fails[:: max(1, len(fails) // 6)][:6]:
             rep.sample({"backend": s.kind, "pre": [e[:2] for e in s.pre][:6], "op": H.op_json(s.op), "raised": s.impl[1]})
@@ -141,6 +150,8 @@ def run(rep, tier, seed, deep=False):
 
 
 def replay(rep, case):
+    if X.is_mine(case):
+        return X.replay(rep, case)
     c = case["case"]
     if "backend" not in c:
         render_all_error_classes(rep)
